@@ -1951,8 +1951,15 @@ func (ls *LState) Status(th *LState) string {
 		status = "dead"
 	} else if ls.G.CurrentThread == th {
 		status = "running"
-	} else if ls.Parent == th {
-		status = "normal"
+	} else {
+		// every coroutine on the chain of resumers of the caller is active but
+		// not running
+		for p := ls.Parent; p != nil; p = p.Parent {
+			if p == th {
+				status = "normal"
+				break
+			}
+		}
 	}
 	return status
 }
